@@ -253,6 +253,12 @@ def check_tree(tr: t.Any) -> t.Optional[t.Tuple[str, str]]:
     exp = ber.encode(_node(tr))
     if got != exp:
         return ("nest-write-differs", f"{tr!r} written as {got.hex()[:80]}, expected {exp.hex()[:80]}")
+    try:
+        again = bytes(w.get_data())
+    except BaseException as e:
+        return (f"get-data-again-raises:{K.exc_key(e)}", f"a second get_data() raised {type(e).__name__}: {e}")
+    if again != exp:
+        return ("get-data-not-repeatable", f"a second get_data() on the same writer returned {again.hex()[:60]} ({len(again)} octets), the first {len(exp)} octets")
     r = _reader(exp + b"\x05\x00")
     try:
         back = _read(r, tr)
@@ -301,6 +307,18 @@ def check_forest(trs: t.Sequence[t.Any]) -> t.Optional[t.Tuple[str, str]]:
     exp = b"".join(ber.encode(_node(tr)) for tr in trs)
     if got != exp:
         return ("forest-write-differs", f"{len(trs)} values in a row written differently from the reference")
+    # looking at the data written so far is not the end of the writer
+    w2 = asn1.ASN1Writer()
+    try:
+        for i, tr in enumerate(trs[:40]):
+            _write(w2, tr)
+            if i % 3 == 0:
+                w2.get_data()
+        got2 = bytes(w2.get_data())
+    except BaseException as e:
+        return (f"forest-write-raises:{K.exc_key(e)}", f"writing with get_data() in between raised {type(e).__name__}: {e}")
+    if got2 != b"".join(ber.encode(_node(tr)) for tr in trs[:40]):
+        return ("get-data-between-writes-loses-data", f"values written before an intermediate get_data() are missing from the final data ({len(got2)} octets)")
     r = _reader(exp + b"\x05\x00")
     try:
         back = [_read(r, tr) for tr in trs]
